@@ -293,4 +293,90 @@ example : (mpf_add 0 (mkSt r3 default default) .r .r).map (fun s => (s.ok, s.out
 -- negative: `prec = r->_mp_prec + 1` keeps three limbs and stores the carry at rp[3]
 example : (mpf_add 1 (mkSt r2 u3 v2) .u .v).map (fun s => s.ok) = some false := by decide
 
+/-- mpf_mul_2exp (r, u, exp) and mpf_mul_2exp (r, r, exp) (mpf/mul_2exp.c), every operand length and shift count: the
+    whole-limb arm copies at most PREC + 1 limbs (nothing when rp == up); the shift arm cuts the operand to PREC limbs and
+    leaves PREC + 1 limbs in rp[0, PREC] — `mpn_rshift (rp + 1, up, prec, …)`, `rp[0] = cy_limb` and the read-back of
+    `rp[abs_usize]` when the operand was longer than PREC, `mpn_lshift (rp, up, n, …)` and `rp[n] = cy_limb` (n ≤ PREC)
+    otherwise.  Result = C13's `Mpf.mul_2exp`. -/
+theorem mpf_mul_2exp_dest_safe (s : St) (x : Src) (e : Nat) (hs : s.ok = true) (hr : DestWF s.r) (hx : OpndWF (s.obj x)) :
+    (mpf_mul_2exp 0 s x e).ok = true ∧ (mpf_mul_2exp 0 s x e).u = s.u ∧ (mpf_mul_2exp 0 s x e).v = s.v ∧
+    (mpf_mul_2exp 0 s x e).r.prec = s.r.prec ∧ (mpf_mul_2exp 0 s x e).r.blk.alloc = s.r.blk.alloc ∧
+    BlkWF (mpf_mul_2exp 0 s x e).r.blk ∧
+    (mpf_mul_2exp 0 s x e).r.view = Mpf.mul_2exp s.r.prec (s.obj x).view e ∧
+    (Mpf.OpWF (s.obj x).view → 1 ≤ s.r.prec → Mpf.WF (mpf_mul_2exp 0 s x e).r.view) := by
+  have key : Fr s (mpf_mul_2exp 0 s x e) ∧ (mpf_mul_2exp 0 s x e).r.view = Mpf.mul_2exp s.r.prec (s.obj x).view e := by
+    unfold mpf_mul_2exp Mpf.mul_2exp
+    simp only
+    by_cases h0 : (s.obj x).size = 0
+    · rw [if_pos h0, if_pos (show (s.obj x).view.size = 0 from h0)]
+      exact ⟨⟨hs, rfl, rfl, rfl, rfl, hr.1⟩, rfl⟩
+    · rw [if_neg h0, if_neg (show ¬ (s.obj x).view.size = 0 from h0)]
+      by_cases h1 : e % 64 = 0
+      · rw [if_pos h1, if_pos h1]
+        obtain ⟨F, c1, c2, c3, c4⟩ := copyArm_spec s x hs hr hx
+        refine ⟨F.setSE _ _, ?_⟩
+        simp only [FObj.view] at c3 c4
+        simp only [FObj.view, St.setSE, natAbs_sg, c3, F.prec, c4]
+      · rw [if_neg h1, if_neg h1]
+        obtain ⟨F, c1, c2, c3⟩ := shiftArm_spec s x (e % 64) hs hr hx
+        refine ⟨F.setSE _ _, ?_⟩
+        simp only [FObj.view] at c1 c2 c3 ⊢
+        rw [c2] at c3
+        generalize Mpf.shiftUp (Mpf.top s.r.prec (List.take (s.obj x).size.natAbs (s.obj x).blk.limbs)) (e % 64) = S at c1 c2 c3 ⊢
+        obtain ⟨rd, adj⟩ := S
+        simp only at c1 c2 c3 ⊢
+        rw [c1] at c2 c3
+        simp only [St.setSE, natAbs_sg, c2, F.prec, c3, c1]
+  obtain ⟨F, hv⟩ := key
+  exact ⟨F.ok, F.u, F.v, F.prec, F.alloc, F.wf, hv, fun ho hp => by rw [hv]; exact Mpf.mul_2exp_wf _ hp _ e ho⟩
+
+/-- two limbs [1, 2^64 - 1], exponent 1 -/
+def u2 : FObj := mkObj 0 false 1 [1, B - 1] 1
+
+-- operand of five limbs: rshift path; r == u; short operand: lshift path with a non-zero carry limb; whole limbs
+example : (fun s : St => (s.ok, s.out)) (mpf_mul_2exp 0 (mkSt r2 u5 default) .u 63) = (true, -3, 8, [0, 2 ^ 63 + 2, 2]) := by decide
+example : (fun s : St => (s.ok, s.out)) (mpf_mul_2exp 0 (mkSt r5 default default) .r 1) = (true, -2, 7, [8, 10, 0, 4, 5]) := by decide
+example : (fun s : St => (s.ok, s.out)) (mpf_mul_2exp 0 (mkSt r2 u2 default) .u 4) = (true, 3, 2, [16, B - 16, 15]) := by decide
+example : (fun s : St => (s.ok, s.out)) (mpf_mul_2exp 0 (mkSt r2 u5 default) .u 128) = (true, -3, 9, [3, 4, 5]) := by decide
+-- negative: `prec = r->_mp_prec + 1`: mpn_rshift stores rp[1, 3]
+example : (mpf_mul_2exp 1 (mkSt r2 u5 default) .u 63).ok = false := by decide
+
+/-- mpf_div_2exp (r, u, exp) and mpf_div_2exp (r, r, exp) (mpf/div_2exp.c): as mpf_mul_2exp with the complementary shift
+    count; result = C13's `Mpf.div_2exp`. -/
+theorem mpf_div_2exp_dest_safe (s : St) (x : Src) (e : Nat) (hs : s.ok = true) (hr : DestWF s.r) (hx : OpndWF (s.obj x)) :
+    (mpf_div_2exp 0 s x e).ok = true ∧ (mpf_div_2exp 0 s x e).u = s.u ∧ (mpf_div_2exp 0 s x e).v = s.v ∧
+    (mpf_div_2exp 0 s x e).r.prec = s.r.prec ∧ (mpf_div_2exp 0 s x e).r.blk.alloc = s.r.blk.alloc ∧
+    BlkWF (mpf_div_2exp 0 s x e).r.blk ∧
+    (mpf_div_2exp 0 s x e).r.view = Mpf.div_2exp s.r.prec (s.obj x).view e ∧
+    (Mpf.OpWF (s.obj x).view → 1 ≤ s.r.prec → Mpf.WF (mpf_div_2exp 0 s x e).r.view) := by
+  have key : Fr s (mpf_div_2exp 0 s x e) ∧ (mpf_div_2exp 0 s x e).r.view = Mpf.div_2exp s.r.prec (s.obj x).view e := by
+    unfold mpf_div_2exp Mpf.div_2exp
+    simp only
+    by_cases h0 : (s.obj x).size = 0
+    · rw [if_pos h0, if_pos (show (s.obj x).view.size = 0 from h0)]
+      exact ⟨⟨hs, rfl, rfl, rfl, rfl, hr.1⟩, rfl⟩
+    · rw [if_neg h0, if_neg (show ¬ (s.obj x).view.size = 0 from h0)]
+      by_cases h1 : e % 64 = 0
+      · rw [if_pos h1, if_pos h1]
+        obtain ⟨F, c1, c2, c3, c4⟩ := copyArm_spec s x hs hr hx
+        refine ⟨F.setSE _ _, ?_⟩
+        simp only [FObj.view] at c3 c4
+        simp only [FObj.view, St.setSE, natAbs_sg, c3, F.prec, c4]
+      · rw [if_neg h1, if_neg h1]
+        obtain ⟨F, c1, c2, c3⟩ := shiftArm_spec s x (64 - e % 64) hs hr hx
+        refine ⟨F.setSE _ _, ?_⟩
+        simp only [FObj.view] at c1 c2 c3 ⊢
+        rw [c2] at c3
+        generalize Mpf.shiftUp (Mpf.top s.r.prec (List.take (s.obj x).size.natAbs (s.obj x).blk.limbs)) (64 - e % 64) = S at c1 c2 c3 ⊢
+        obtain ⟨rd, adj⟩ := S
+        simp only at c1 c2 c3 ⊢
+        rw [c1] at c2 c3
+        simp only [St.setSE, natAbs_sg, c2, F.prec, c3, c1]
+  obtain ⟨F, hv⟩ := key
+  exact ⟨F.ok, F.u, F.v, F.prec, F.alloc, F.wf, hv, fun ho hp => by rw [hv]; exact Mpf.div_2exp_wf _ hp _ e ho⟩
+
+example : (fun s : St => (s.ok, s.out)) (mpf_div_2exp 0 (mkSt r2 u5 default) .u 1) = (true, -3, 7, [0, 2 ^ 63 + 2, 2]) := by decide
+example : (fun s : St => (s.ok, s.out)) (mpf_div_2exp 0 (mkSt r5 default default) .r 63) = (true, -2, 6, [8, 10, 0, 4, 5]) := by decide
+example : (mpf_div_2exp 1 (mkSt r2 u5 default) .u 1).ok = false := by decide
+
 end Mpir.AllocSafe7
